@@ -1,7 +1,9 @@
 //! Correspondence harness of property C19 (regex compilation, automaton parsing, base64).
 mod circuit;
 mod reference;
+mod shapes;
 mod spec;
+mod trace;
 
 use std::collections::BTreeMap;
 
@@ -217,6 +219,8 @@ fn wrng_pick(rng: &mut ChaCha8Rng) -> bool {
     rng.gen_range(0..8) == 0
 }
 
+static LANG_REPORTS: std::sync::atomic::AtomicUsize = std::sync::atomic::AtomicUsize::new(0);
+
 struct Compiled {
     tree: VerifRegexTree,
     tree_s: String,
@@ -231,7 +235,9 @@ fn case_if(ctx: &mut Ctx, emit: bool, kind: &str, nontrivial: bool, op: &str, an
     }
 }
 
-fn one_spec(ctx: &mut Ctx, s: &Spec, rng: &mut ChaCha8Rng, nwords: usize) -> Option<Compiled> {
+/// `light`: only the all-words request and the empty word (structural corpus); `src`: label of
+/// the generator for the distribution table.
+fn one_spec(ctx: &mut Ctx, s: &Spec, rng: &mut ChaCha8Rng, nwords: usize, light: bool, src: &str) -> Option<Compiled> {
     let mut tags = vec![];
     spec_tags(s, &mut tags);
     let spec_s = spec_string(s);
@@ -262,7 +268,10 @@ fn one_spec(ctx: &mut Ctx, s: &Spec, rng: &mut ChaCha8Rng, nwords: usize) -> Opt
     }
     let tree_s = tree_string(&tree);
     // the tree built by the real combinators must be the transcription's tree
-    ctx.case("tree", spec_size(s) > 1, &format!("tree {spec_s}"), &tree_s);
+    // (the search tier only looks for failing inputs: nothing is sent to the Lean model)
+    if !ctx.search() {
+        ctx.case("tree", spec_size(s) > 1, &format!("tree {spec_s}"), &tree_s);
+    }
     // Is the language output-deterministic (reference verdict; `None` = too large to tell)?
     let (det, dead_concat) = {
         let rx = reference::from_tree(&tree);
@@ -277,8 +286,8 @@ fn one_spec(ctx: &mut Ctx, s: &Spec, rng: &mut ChaCha8Rng, nwords: usize) -> Opt
     };
     // Expressions of the two recorded defect classes (see /verif/findings/C19.json) are only
     // checked by the oracle (which reports them under their stable keys), not sent to the model.
-    let emit = !(has_marked_complement(&tree) || dead_concat);
-    if !emit {
+    let emit = !(has_marked_complement(&tree) || dead_concat) && !ctx.search();
+    if !emit && !ctx.search() {
         ctx.count("regex:known-defect-class(oracle-only)");
     }
     let compiled = catch(|| regex.to_automaton());
@@ -345,6 +354,14 @@ fn one_spec(ctx: &mut Ctx, s: &Spec, rng: &mut ChaCha8Rng, nwords: usize) -> Opt
     for t in &tags {
         ctx.count(&format!("combinator:{t}"));
     }
+    {
+        // (head of left factor) x (head of right factor) of every Concat node of the internal tree
+        let mut pairs = vec![];
+        shapes::concat_pairs(&tree, &mut pairs);
+        for (l, r) in pairs {
+            ctx.count(&format!("concat-pair[{src}]:{l}>{r}"));
+        }
+    }
     ctx.count(&format!("regex:depth-{}", spec_depth(s)));
     ctx.count(&format!(
         "automaton:states-{}",
@@ -398,7 +415,15 @@ fn one_spec(ctx: &mut Ctx, s: &Spec, rng: &mut ChaCha8Rng, nwords: usize) -> Opt
             if let reference::Explored::Equiv(n) = other {
                 ctx.count_n("equiv:pairs-explored", *n as u64);
             }
-            if let reference::Explored::Diff(w) = other {
+            if let reference::Explored::Diff(_) = other {
+                ctx.count("equiv:reference-found-distinguishing-word");
+            }
+            // the structural corpus reports at most 8 language differences (one realistic defect
+            // of `concat` breaks hundreds of shapes; the others are counted)
+            let report = !light
+                || !matches!(other, reference::Explored::Diff(_))
+                || LANG_REPORTS.fetch_add(1, std::sync::atomic::Ordering::Relaxed) < 8;
+            if let (reference::Explored::Diff(w), true) = (other, report) {
                 let bytes: Vec<u8> = w.iter().map(|x| x.0).collect();
                 let marks: Vec<usize> = w.iter().map(|x| x.1).collect();
                 ctx.oracle_fail(
@@ -413,7 +438,7 @@ fn one_spec(ctx: &mut Ctx, s: &Spec, rng: &mut ChaCha8Rng, nwords: usize) -> Opt
     }
     // sampled words: accepted ones (random walks), their mutations, random ones
     let mut words: Vec<Vec<u8>> = vec![vec![]];
-    for _ in 0..nwords {
+    for _ in 0..(if light { 0 } else { nwords }) {
         if let Some(w) = sample_accepted(&automaton, rng, 40) {
             let mut m = w.clone();
             words.push(w);
@@ -480,7 +505,7 @@ fn one_spec(ctx: &mut Ctx, s: &Spec, rng: &mut ChaCha8Rng, nwords: usize) -> Opt
             ans,
         );
     }
-    if emit && nontrivial && rng.gen_range(0..4) == 0 {
+    if !light && emit && nontrivial && rng.gen_range(0..4) == 0 {
         serialization_cases(ctx, &automaton, &tree_s, rng, 2);
     }
     Some(Compiled {
@@ -572,12 +597,21 @@ fn run_regex(ctx: &mut Ctx) {
     };
     let nwords = if ctx.quick() { 4 } else { 8 };
     let only: Option<usize> = std::env::var("VERIF_C19_ONLY").ok().and_then(|x| x.parse().ok());
+    // (a) structural corpus, first in every tier: every ordered pair / triple of combinator heads
+    // with inner words of length 1, 2, 3 over {a,b,c} (see shapes.rs)
+    if only.is_none() {
+        for (name, s) in shapes::corpus(!ctx.quick()) {
+            ctx.count("regex:corpus");
+            ctx.count(&format!("regex:corpus-{}", name.split(':').next().unwrap()));
+            one_spec(ctx, &s, &mut wrng, 0, true, "corpus");
+        }
+    }
     for s in fixed_specs() {
         if only.is_some() {
             break;
         }
         ctx.count("regex:fixed");
-        one_spec(ctx, &s, &mut wrng, nwords);
+        one_spec(ctx, &s, &mut wrng, nwords, false, "fixed");
     }
     for i in 0..n_random {
         let depth = 1 + (i % 5);
@@ -592,7 +626,32 @@ fn run_regex(ctx: &mut Ctx) {
         if std::env::var("VERIF_C19_TRACE").is_ok() {
             eprintln!("index {i}");
         }
-        one_spec(ctx, &s, &mut wrng, nwords);
+        one_spec(ctx, &s, &mut wrng, nwords, false, "random");
+    }
+    // (b) second random stream: concatenation-heavy, multi-byte words under star/list at every
+    // depth (1..=6), alphabet {a,b,c}
+    let mut rng2 = ctx.rng("regex-gen-weighted");
+    let n_weighted = if ctx.quick() {
+        400
+    } else if ctx.thorough() {
+        2000
+    } else {
+        1500
+    };
+    for i in 0..n_weighted {
+        let depth = 1 + (i % 6);
+        let s = shapes::gen_weighted(&mut rng2, depth.min(4), i % 3 != 0);
+        if only.map(|o| o != 100000 + i).unwrap_or(false) {
+            continue;
+        }
+        if spec_size(&s) > if ctx.quick() { 22 } else if ctx.thorough() { 30 } else { 50 } {
+            ctx.count("regex:skipped-weighted-spec-too-large");
+            continue;
+        }
+        if std::env::var("VERIF_C19_TRACE").is_ok() {
+            eprintln!("windex {i}");
+        }
+        one_spec(ctx, &s, &mut wrng, nwords.min(3), false, "weighted");
     }
 }
 
@@ -676,6 +735,87 @@ fn serialization_cases(ctx: &mut Ctx, a: &Automaton, label: &str, rng: &mut ChaC
             &format!("deser {}", hex(&longer)),
             &format!("ok {} rest={rest}", dfa_text(&back)),
         );
+    }
+    // EVERY truncation of a small automaton (first 6 small automata of the run): always an
+    // error, never a panic, never an automaton
+    static FULL_SWEEPS: std::sync::atomic::AtomicUsize = std::sync::atomic::AtomicUsize::new(0);
+    let sweep = bytes.len() <= 420
+        && a.nb_states > 1
+        && FULL_SWEEPS.fetch_add(1, std::sync::atomic::Ordering::Relaxed) < 6;
+    if sweep {
+        for cut in 0..bytes.len() {
+            let r = catch(|| verif_deserialize_automaton(&bytes[..cut]));
+            let ans = match &r {
+                Ok(Ok(_)) => "ok".to_string(),
+                Ok(Err(_)) => "error".to_string(),
+                Err(p) => format!("panic {p}"),
+            };
+            if ans != "error" {
+                ctx.oracle_fail(
+                    &format!("serialization-truncated:{label}:{cut}"),
+                    "a truncated serialized automaton is not rejected with an error",
+                    json!({"bytes": hex(&bytes[..cut]), "result": ans}),
+                );
+            }
+            ctx.case("deser-truncated-sweep", true, &format!("deser {}", hex(&bytes[..cut])), &ans);
+        }
+        // the 16 bytes of the two scalar header fields (nb_states, initial_state) x 256 values:
+        // decoded without panic into the automaton the bytes say (the format has no checksum and
+        // does not validate state numbers). The two length fields are only DEcreased: an
+        // increased / misaligned length reaches `Vec::with_capacity(len)` with an unchecked
+        // 64-bit length (known finding of C16, `automaton-deserialize:length-field`), which can
+        // abort the process.
+        let nfinals = a.final_states.len();
+        let mut mutants: Vec<Vec<u8>> = vec![];
+        static HEADER_SWEEPS: std::sync::atomic::AtomicUsize = std::sync::atomic::AtomicUsize::new(0);
+        let header = HEADER_SWEEPS.fetch_add(1, std::sync::atomic::Ordering::Relaxed) < 2;
+        for pos in 0..(if header { 16usize } else { 0 }) {
+            for v in 0..=255u8 {
+                if v != bytes[pos] {
+                    let mut m = bytes.clone();
+                    m[pos] = v;
+                    mutants.push(m);
+                }
+            }
+        }
+        for (pos, cur) in [(16usize, nfinals), (24 + 8 * nfinals, a.transitions.len())] {
+            for v in 0..cur.min(256) {
+                let mut m = bytes.clone();
+                m[pos] = v as u8;
+                mutants.push(m);
+            }
+        }
+        for m in mutants {
+            let nb = u64::from_le_bytes(m[..8].try_into().unwrap());
+            if nb > 1000 && nb <= 100000 {
+                // the model would allocate nb * 256 table entries
+                continue;
+            }
+            let r = catch(|| verif_deserialize_automaton(&m));
+            let ans = match &r {
+                Ok(Ok((back, rest))) => {
+                    let n = back.nb_states;
+                    if n > 100000
+                        || back.final_states.iter().any(|f| *f >= n)
+                        || back.transitions.iter().any(|((s, _), (t, _))| *s >= n || *t >= n)
+                    {
+                        "ok invalid-states".to_string()
+                    } else {
+                        format!("ok {} rest={rest}", dfa_text(back))
+                    }
+                }
+                Ok(Err(_)) => "error".to_string(),
+                Err(p) => format!("panic {p}"),
+            };
+            if ans.starts_with("panic") {
+                ctx.oracle_fail(
+                    &format!("serialization-corrupted-panic:{label}"),
+                    "the deserializer panics on a corrupted serialized automaton",
+                    json!({"bytes": hex(&m), "result": ans}),
+                );
+            }
+            ctx.case("deser-corrupted-header", true, &format!("deser {}", hex(&m)), &ans);
+        }
     }
     // truncations: always an error
     for _ in 0..ntrunc {
@@ -782,7 +922,8 @@ fn run_library(ctx: &mut Ctx) {
         // (i) shipped automaton against the specification itself, all words
         let tree = spec.verif_dump();
         ctx.set_extra(&format!("library:{name}:spec-tree-size"), json!(tree_size(&tree)));
-        if !ctx.quick() {
+        // (about 12 minutes of checker run for the Jwt specification: thorough tier only)
+        if ctx.thorough() {
             ctx.case(
                 "equiv-shipped-spec",
                 true,
@@ -856,10 +997,46 @@ fn parse_cases(ctx: &mut Ctx, a: &Automaton, label: &str, rng: &mut ChaCha8Rng, 
     }
     words.sort();
     words.dedup();
+    let mut table_done = false;
+    let mut forged = 0usize;
+    let mut forged_mid = 0usize;
     for w in words {
         let k = k_for(a, w.len());
         let expected = accepts(a, &w);
-        let v = run_parse(a, &w, None, k);
+        let (v, tr) = circuit::run_parse_traced(a, &w, k);
+        // structure of the real circuit: lookup, loaded table (once per automaton), rows and copy
+        // constraints of the parsing region (every word, accepted or not final)
+        match tr {
+            Some(Ok(t)) => {
+                if !table_done {
+                    table_done = true;
+                    ctx.case("parse-lookup", true, &format!("plookup {}", a.nb_states), &t.lookup);
+                    ctx.case(
+                        "parse-table",
+                        true,
+                        &format!("ptable {text}"),
+                        &format!("{} rows {} pad 0.0.0.0", t.table.len(), t.table.join(" ")),
+                    );
+                    if !t.padding.starts_with("0.0.0.0x") {
+                        ctx.oracle_fail(
+                            &format!("parse-table-padding:{label}"),
+                            "the unused rows of the automaton lookup table are not the dummy transition (0,0,0,0)",
+                            json!({"automaton": text, "padding": t.padding}),
+                        );
+                    }
+                }
+                ctx.case(
+                    if expected.is_some() { "parse-trace-accepted" } else { "parse-trace-not-final" },
+                    true,
+                    &format!("ptrace {text} | {}", hex(&w)),
+                    &t.rows.join(" "),
+                );
+            }
+            Some(Err(e)) => {
+                ctx.case("parse-trace-unreadable", true, &format!("ptrace {text} | {}", hex(&w)), &format!("unreadable {e}"));
+            }
+            None => {}
+        }
         let ans = match &v {
             Verdict::Ok(ms) => format!("ok {}", mzkh::join(ms)),
             Verdict::Stuck => {
@@ -891,6 +1068,77 @@ fn parse_cases(ctx: &mut Ctx, a: &Automaton, label: &str, rng: &mut ChaCha8Rng, 
                 "AutomatonChip::parse is not satisfiable exactly for the accepted inputs with their markers",
                 json!({"automaton": text, "input": w, "expected": expected, "circuit": ans}),
             );
+        }
+        // forged witness: a word on which the run from the initial state ends in a non-final
+        // state, but the run from ANOTHER state accepts: the prover writes that other run into
+        // the (free) state and output cells and overwrites the (pinned) first state cell. The
+        // copy constraint of the first state cell must make the circuit unsatisfied.
+        if expected.is_none() && matches!(v, Verdict::Unsat) && forged < 3 {
+            let mut starts: Vec<usize> = (0..a.nb_states).filter(|s| *s != a.initial_state).collect();
+            starts.truncate(64);
+            for s0 in starts {
+                let mut st = s0;
+                let mut states = vec![(s0 + 1) as u64];
+                let mut outs = vec![];
+                let mut ok = true;
+                for b in &w {
+                    match a.transitions.get(&(st, *b)) {
+                        Some(&(t, m)) => {
+                            st = t;
+                            states.push((t + 1) as u64);
+                            outs.push(m as u64);
+                        }
+                        None => {
+                            ok = false;
+                            break;
+                        }
+                    }
+                }
+                if !ok || !a.final_states.contains(&st) {
+                    continue;
+                }
+                forged += 1;
+                ctx.count("parse:forged-initial-state");
+                if let Some(true) = circuit::run_parse_forged(a, &w, k, &states, &outs) {
+                    ctx.oracle_fail(
+                        &format!("parse-circuit-forged-initial-state:{label}:{}", hex(&w)),
+                        "AutomatonChip::parse accepts a forged witness that starts the run in a state other than the initial state",
+                        json!({"automaton": text, "input": w, "forged_states_shifted": states, "forged_outputs": outs}),
+                    );
+                }
+                break;
+            }
+        }
+        // forged witness on an accepted word: one intermediate state cell replaced by another
+        // state: some lookup must fail
+        if let (Some(e), true) = (&expected, w.len() >= 2 && forged_mid < 2 && a.nb_states >= 2) {
+            forged_mid += 1;
+            if let Some((_, _)) = run(a, &w) {
+                let mut st = a.initial_state;
+                let mut states = vec![(st + 1) as u64];
+                for b in &w {
+                    st = a.transitions[&(st, *b)].0;
+                    states.push((st + 1) as u64);
+                }
+                let i = 1 + rng.gen_range(0..w.len() - 1);
+                let other = (0..a.nb_states).map(|s| (s + 1) as u64).find(|s| *s != states[i]).unwrap();
+                states[i] = other;
+                let outs: Vec<u64> = e.iter().map(|x| *x as u64).collect();
+                ctx.count("parse:forged-middle-state");
+                // satisfiable only if the other state happens to have the same transitions
+                let same = a.transitions.get(&((other - 1) as usize, w[i])).map(|x| (x.0 + 1) as u64, ) == Some(states[i + 1])
+                    && a.transitions.get(&((other - 1) as usize, w[i])).map(|x| x.1 as u64) == Some(outs[i])
+                    && a.transitions.get(&((states[i - 1] - 1) as usize, w[i - 1])).map(|x| (x.0 + 1) as u64) == Some(other);
+                if let Some(true) = circuit::run_parse_forged(a, &w, k, &states, &outs) {
+                    if !same {
+                        ctx.oracle_fail(
+                            &format!("parse-circuit-forged-middle-state:{label}:{}", hex(&w)),
+                            "AutomatonChip::parse accepts a forged witness with a wrong intermediate state",
+                            json!({"automaton": text, "input": w, "forged_states_shifted": states, "row": i}),
+                        );
+                    }
+                }
+            }
         }
         // claimed markers: the right ones are accepted, a wrong one is refused
         if let Some(e) = expected {
@@ -955,7 +1203,13 @@ fn run_parse_circuit(ctx: &mut Ctx) {
         bx(w(",")),
     );
     let mut specs = vec![("example0", example0), ("example1", example1), ("marked-list", marked_list), ("json-string", JsonString)];
-    let n_random = if ctx.quick() { 4 } else { 30 };
+    let n_random = if ctx.quick() {
+        4
+    } else if ctx.search() {
+        10
+    } else {
+        30
+    };
     let mut tries = 0;
     let mut grng = ctx.rng("parse-circuit-gen");
     let mut extra = vec![];
@@ -1220,8 +1474,10 @@ fn main() {
     let mut ctx = Ctx::from_args("C19");
     run_regex(&mut ctx);
     run_library(&mut ctx);
+    // the in-circuit parser also in the search tier (forged witnesses, verdicts); base64 sweeps
+    // are identical in every tier and are not repeated by the search
+    run_parse_circuit(&mut ctx);
     if !ctx.search() {
-        run_parse_circuit(&mut ctx);
         run_base64(&mut ctx);
     }
     ctx.finish();
